@@ -211,7 +211,7 @@ impl M {
             M::S0 => ("Skip", "s0", false, false, true, Recv::Ref, false),
             M::S1 => ("Skip", "s1", false, false, false, Recv::Ref, false),
             M::S2 => ("Skip", "s2", false, false, true, Recv::Ref, false),
-            M::D0 => ("DbgT", "d0", false, false, false, Recv::Ref, false),
+            M::D0 => ("DbgT", "d0", false, false, true, Recv::Ref, false),
             M::Vu => ("ByValU", "vu", false, false, true, Recv::Val, false),
             M::RcU => ("ByRcU", "rcu", false, false, true, Recv::Rc, false),
             M::Show => ("FmtT", "show", false, true, false, Recv::Ref, false),
